@@ -96,7 +96,9 @@ def _refactor_invariance(prop):
     except Exception as e:  # noqa: BLE001
         return {"skipped": f"refactor_sweep not importable ({type(e).__name__})"}
     from . import frontend
-    kinds = ["unparse", "flipcmp", "invertif", "rename3", "extractcond", "cellify", "earlyreturn"]
+    # seven single transformations and two chains of ten (annotations, keyword / positional arguments, augmented assignments,
+    # conditional expressions, log lines, private attribute names, ... applied on top of one another)
+    kinds = ["unparse", "flipcmp", "invertif", "rename3", "extractcond", "cellify", "earlyreturn", "combo", "combo2"]
 
     def one(kind):
         tmp = tempfile.mkdtemp(prefix="rxsa_inv_")
@@ -114,7 +116,7 @@ def _refactor_invariance(prop):
             return kind, f"NOT SILENT (exit {p.returncode}): {' | '.join(last)}"[:300]
         finally:
             shutil.rmtree(tmp, ignore_errors=True)
-    with ThreadPoolExecutor(max_workers=7) as ex:
+    with ThreadPoolExecutor(max_workers=9) as ex:
         return dict(ex.map(one, kinds))
 
 
